@@ -193,7 +193,13 @@ int main(int argc, char **argv) {
         if(e->init) e->init(true);
         EV.keep = keeplog;
         status_head(p.head_str()); status_ops(p.ops_str());
-        ReplayResult r = e->replay(p);
+        ReplayResult r;
+        if(!p.get("rerun_index").empty()) {
+            uint64_t vs = strtoull(p.get("verif_seed", "1").c_str(), 0, 10), idx = strtoull(p.get("rerun_index").c_str(), 0, 10);
+            sim_alloc_reset();
+            e->run(derive_run_seed(vs, e->id, SIM_PROGRAM, idx), idx, p.get("tier") == "thorough");
+            if(!g_violation_counts.empty()) { r.violated = true; r.sig = g_violation_counts.begin()->first; r.detail = "violation while re-running index " + p.get("rerun_index"); }
+        } else r = e->replay(p);
         if(keeplog) fputs(EV.text.c_str(), stderr);
         printf("{\"type\":\"replay\",\"property\":\"%s\",\"violated\":%s,\"skipped\":%s,\"sig\":\"%s\",\"detail\":\"%s\",\"log_hash\":\"%016llx\"}\n",
                pid.c_str(), r.violated ? "true" : "false", r.skipped ? "true" : "false", json_escape(r.sig).c_str(),
@@ -210,7 +216,11 @@ int main(int argc, char **argv) {
     for(uint64_t i = start; i < count; i += stride) {
         uint64_t rs = derive_run_seed(seed, e->id, SIM_PROGRAM, i);
         status_index(i);
-        status_head(""); status_ops("");
+        {   // until the engine publishes a precise plan, the replay of a death is "run this index again"
+            char hb[256]; snprintf(hb, sizeof hb, "property %s\nprogram %s\nverif_seed %llu\nrerun_index %llu\ntier %s\n", e->id, SIM_PROGRAM,
+                                   (unsigned long long)seed, (unsigned long long)i, thorough ? "thorough" : "quick");
+            status_head(hb); status_ops("");
+        }
         EV.reset();
         EV.ev("seed %llu", (unsigned long long)rs);
         sim_alloc_reset();
